@@ -19,6 +19,7 @@ func CheckRegistryTrace(calls []RegCall) []Violation {
 		ef       int
 		failed   bool
 		lastFacx int
+		hasF     bool   // an early-reference factory was registered in the running attempt
 		facSeen  []bool // stack: did the goc currently running invoke its factory?
 	}
 	states := map[string]*st{}
@@ -48,7 +49,7 @@ func CheckRegistryTrace(calls []RegCall) []Violation {
 			}
 			s.creating++
 			if s.creating == 1 {
-				s.early, s.ef, s.failed = 0, 0, false
+				s.early, s.ef, s.failed, s.hasF = 0, 0, false, false
 			}
 		case "facx":
 			s.lastFacx = c.Ref
@@ -65,7 +66,7 @@ func CheckRegistryTrace(calls []RegCall) []Violation {
 						add("failed-creation-returned-instance", c.Name, fmt.Sprintf("creation of %q failed but a reference was returned together with the error", c.Name), idx)
 					}
 					s.failed = true
-					s.early, s.ef = 0, 0
+					s.early, s.ef, s.hasF = 0, 0, false
 				} else {
 					if c.Ref == 0 {
 						add("creation-returned-nil", c.Name, fmt.Sprintf("creation of %q succeeded but returned nil", c.Name), idx)
@@ -74,7 +75,7 @@ func CheckRegistryTrace(calls []RegCall) []Violation {
 					}
 					s.pub = c.Ref
 					s.failed = false
-					s.early, s.ef = 0, 0
+					s.early, s.ef, s.hasF = 0, 0, false
 				}
 			} else {
 				// no factory call: must be a cache hit of the published instance
@@ -104,6 +105,8 @@ func CheckRegistryTrace(calls []RegCall) []Violation {
 					}
 				} else if c.Ref == 0 && !c.Err && s.early != 0 {
 					add("early-reference-disappeared", c.Name, fmt.Sprintf("while %q is in creation its early reference (ref %d) had already been handed out, yet a later lookup (allowEarly=%v) observed nothing", c.Name, s.early, c.Op == "getE"), idx)
+				} else if c.Ref == 0 && !c.Err && c.Op == "getE" && s.hasF && s.creating == 1 {
+					add("early-factory-registered-but-lookup-observed-nothing", c.Name, fmt.Sprintf("%q is in creation and has registered its early-reference factory in this attempt, yet a lookup that allows early references returned neither a reference nor an error", c.Name), idx)
 				}
 			case s.failed:
 				if c.Ref != 0 && !c.Err {
@@ -148,6 +151,9 @@ func CheckRegistryTrace(calls []RegCall) []Violation {
 		case "remove":
 			*s = st{facSeen: s.facSeen, creating: s.creating}
 		case "addF":
+			if s.creating > 0 {
+				s.hasF = true
+			}
 		}
 	}
 	return vs
